@@ -229,6 +229,24 @@ func enumPublish(e *enumCtx, thorough bool) {
 	}
 }
 
+// largePublish: the four-byte remaining-length field (quick tier: three packets
+// around its lower boundary; the thorough tier has the boundary in the product).
+func largePublish(e *enumCtx) {
+	for _, r := range []int{2097151, 2097152, 2097153} {
+		for _, qos := range []byte{0, 1} {
+			over := 2 + 3
+			if qos > 0 {
+				over += 2
+			}
+			p := &refcodec.Packet{Type: refcodec.PUBLISH, QoS: qos, Topic: []byte("t/L"), Payload: pat(r-over, 2)}
+			if qos > 0 {
+				p.ID = 513
+			}
+			e.roundTrip(p, false, 0)
+		}
+	}
+}
+
 func enumConnect(e *enumCtx, thorough bool) {
 	cids := [][]byte{nil, pat(1, 3), pat(23, 3)}
 	kas := []uint16{0, 1, 65535}
@@ -553,7 +571,7 @@ func paddedLengths(e *enumCtx) {
 func C03(c *core.Ctx) {
 	e := &enumCtx{c: c, seen: map[string]bool{}}
 	th := c.Thorough()
-	c.Rep.Bound = "field products over boundary alphabets; accepted byte strings up to 7 bytes over an 8-value byte alphabet; every corpus packet with a non-minimally encoded remaining length; 2 x (2*65536+8) automatically numbered encodes per type; every sequence of public setter / Len / Encode calls up to depth 4 (quick) / 5-6 (thorough) on fresh, decoded and cloned objects of 11 packet types"
+	c.Rep.Bound = "field products over boundary alphabets (the four-byte length boundary 2097151/2097152 in both tiers); accepted byte strings up to 7 bytes over an 8-value byte alphabet; every corpus packet with a non-minimally encoded remaining length; 2 x (2*65536+8) automatically numbered encodes per type; every sequence of public setter / Len / Encode calls up to depth 4 (quick) / 5-6 (thorough) on fresh, decoded and cloned objects of 11 packet types"
 	c.Rep.Rule = "ENUM: nested loops over boundary values of every field of all 14 packet types (string/payload lengths, remaining lengths at varint boundaries, flags, 1..1000 topics, packet ids incl. automatic ones at counter wrap); a case is distinct+non-trivial per (type, structural shape, length of the remaining-length field); oracle = independent reference codec; setter histories: the calls are mirrored on a plain reference record, and at the end of every sequence Len/Encode/getters/Decode must agree with it"
 	if c.Replay != nil {
 		fmt.Printf("replay of an input-enumeration finding: class %q\n  %s\n  input: %s\n", c.Replay.Scenario, c.Replay.Message, string(c.Replay.Input))
@@ -567,6 +585,10 @@ func C03(c *core.Ctx) {
 		e.class = cl.name
 		cl.f(e, th)
 		c.Rep.Scenarios++
+	}
+	if !th && (c.NShards <= 1 || c.Shard == 0) {
+		e.class = "large-publish"
+		largePublish(e)
 	}
 	setterHistories(e, th)
 	c.Rep.Scenarios++
